@@ -198,6 +198,15 @@ def check_validation(ctx, num=2):
             ok = ok and len(recv) == 1 and norm.U(norm.subst(recv[0].func.value, _loop_env(f, lp))) == norm.U(norm.subst(ast.Name(mv.var, ast.Load()), _loop_env(f, lp)))
         ctx.ob(num, "K4", "each accepted suspension starts the write-out of the named container and moves it from active to suspending", ok, f, mv.anchor,
                detail=f"loop: {stmt_text(lp) if lp else None}")
+        if ok:
+            # the loop is on every path, or bypassed only when no suspension was requested
+            byp = pa.g.path_avoiding(pa.g.entry.id, {pa.g.exit.id}, {hid})
+            okb = byp is None
+            if not okb:
+                ex = pa.g.facts(blocked={hid}).get(pa.g.exit.id)
+                okb = ex is None or norm.entails(ex, ("truth", pa.susp_p, False))
+            ctx.ob(num, "K3", "the suspension loop is reached in every tick in which the pool is handed a suspension (it is skipped only for an empty list)", okb, f, lp,
+                   construct="suspension loop on every path", detail="on every path" if byp is None else f"bypass {pa.g.describe_path(byp)}" + ("; only with an empty list" if okb else ""))
 
 
 def _loop_env(f, lp: ast.For) -> Dict[str, ast.expr]:
